@@ -110,6 +110,118 @@ func c10Descriptors(c *core.Ctx) {
 	c.Check(bad == "", rC10Descr, f.Name+":reflects", f.Decl.Pos(), fmt.Sprintf("%d arities: a reflecting predicate takes exactly one argument", n), bad)
 }
 
+const rC10Modes = "ORDABS.modes-have-one-entry-per-argument"
+
+// c10Modes: whatever strings a mode descriptor holds, the modes handed to the rule check and to clause rewriting
+// all have one entry per argument, and unifying them does not index past the end of one of them.
+func c10Modes(c *core.Ctx) {
+	c.Rule(rC10Modes, "Decl.Modes and analysis.unifyModes are read from source and evaluated on declarations of arity 1 and 2 with one to three mode descriptors of the right length over the entries \"+\", \"-\", \"?\", an unknown string and a number: every mode returned has exactly one entry per argument (a descriptor with an unknown entry is dropped as a whole, not shortened), and unifyModes returns a mode of that length without indexing out of range", 1)
+	modes := c.MustFunc(rC10Modes, "ast", "Decl.Modes")
+	unify := c.MustFunc(rC10Modes, "analysis", "unifyModes")
+	if modes == nil || unify == nil {
+		return
+	}
+	k := &astKit{c: c, ok: true}
+	tk := newTypeKit(c, rC10Modes)
+	if !tk.ok {
+		return
+	}
+	in := ordabs.New(c.Prog)
+	entries := []string{"+", "-", "?", "out", "#7"}
+	mkEntry := func(e string) ordabs.Value {
+		if e == "#7" {
+			return tk.num(7)
+		}
+		return tk.str(e)
+	}
+	bad, n := "", 0
+	for arity := 1; arity <= 2 && bad == ""; arity++ {
+		// all descriptors of this arity
+		var descrs [][]string
+		var rec func(cur []string)
+		rec = func(cur []string) {
+			if len(cur) == arity {
+				descrs = append(descrs, append([]string(nil), cur...))
+				return
+			}
+			for _, e := range entries {
+				rec(append(cur, e))
+			}
+		}
+		rec(nil)
+		var lists [][][]string
+		for _, a := range descrs {
+			lists = append(lists, [][]string{a})
+			for _, b := range descrs {
+				lists = append(lists, [][]string{a, b})
+			}
+		}
+		if arity == 1 {
+			for _, a := range descrs {
+				for _, b := range descrs {
+					for _, d := range descrs {
+						lists = append(lists, [][]string{a, b, d})
+					}
+				}
+			}
+		}
+		for _, l := range lists {
+			atom := k.atom("p", int64(arity))
+			var ds []ordabs.Value
+			var text []string
+			for _, m := range l {
+				da := k.atom("mode", int64(arity))
+				var das []ordabs.Value
+				for _, e := range m {
+					das = append(das, mkEntry(e))
+				}
+				da.Fields["Args"] = &ordabs.Slice{Elems: &das}
+				ds = append(ds, da)
+				text = append(text, "mode("+strings.Join(m, ",")+")")
+			}
+			decl := k.zero("ast", "Decl")
+			decl.Fields["DeclaredAtom"] = atom
+			decl.Fields["Descr"] = &ordabs.Slice{Elems: &ds}
+			if !k.ok {
+				c.Unres(rC10Modes, modes.Name, modes.Decl.Pos(), "anchor-unresolved: ast.Decl")
+				return
+			}
+			in.Reset()
+			in.Fuel = 200000
+			out, err := in.Call(modes, decl, nil)
+			if !runORD(c, rC10Modes, modes.Name, modes, err) {
+				return
+			}
+			n++
+			ms, _ := out[0].(*ordabs.Slice)
+			if ms != nil && ms.Elems != nil {
+				for _, m := range *ms.Elems {
+					if sl, _ := m.(*ordabs.Slice); sl == nil || sl.Elems == nil || len(*sl.Elems) != arity {
+						ln := 0
+						if sl != nil && sl.Elems != nil {
+							ln = len(*sl.Elems)
+						}
+						bad = fmt.Sprintf("a declaration of arity %d with %s yields a mode of %d entries: the rule check and clause rewriting index the atom's arguments and the other modes by its positions", arity, strings.Join(text, " "), ln)
+					}
+				}
+			}
+			if bad != "" {
+				break
+			}
+			in.Reset()
+			in.Fuel = 200000
+			out, err = in.Call(unify, nil, []ordabs.Value{out[0]})
+			if !runORD(c, rC10Modes, unify.Name, unify, err) {
+				return
+			}
+			if um, _ := out[0].(*ordabs.Slice); ms != nil && ms.Elems != nil && len(*ms.Elems) > 0 && (um == nil || um.Elems == nil || len(*um.Elems) != arity) {
+				bad = fmt.Sprintf("a declaration of arity %d with %s: unifyModes does not return one entry per argument", arity, strings.Join(text, " "))
+			}
+		}
+	}
+	c.Check(bad == "", rC10Modes, modes.Name, modes.Decl.Pos(), fmt.Sprintf("%d declarations: every mode has one entry per argument and unifies without indexing out of range", n), bad)
+}
+
 // c10FunctionPositions: the arity check of function expressions visits every place of a clause where the bounds
 // analysis and the evaluator will later take such an expression apart.
 func c10FunctionPositions(c *core.Ctx) {
@@ -217,4 +329,89 @@ func c10FunctionPositions(c *core.Ctx) {
 		missed = append(missed, "(a clause without function expressions is rejected)")
 	}
 	c.Check(len(missed) == 0, rC10Fn, f.Name, f.Decl.Pos(), fmt.Sprintf("a malformed map expression is reported at each of %d positions", len(positions)), "a map expression with an odd number of arguments goes unreported at: "+strings.Join(missed, ", ")+" - the bounds analysis then reads past its arguments")
+}
+
+const rC10Merge = "ORDABS.merge-target-columns"
+
+// c10MergeDelta: a functional dependency whose target list does not have exactly one column (fundep([X],[Z]) with Z
+// not an argument gives an empty list) must be answered with an error, not by indexing the list.
+func c10MergeDelta(c *core.Ctx) {
+	c.Rule(rC10Merge, "(*engine).mergeDelta is read from source and evaluated on a derived fact of a predicate with a merge declaration whose functional dependency has 0, 1 and 2 target columns, with and without a stored fact for the same key: it never indexes past the end of the target list - for 0 and 2 columns it returns an error, for 1 it stores the fact", 3)
+	f := c.MustFunc(rC10Merge, "engine", "engine.mergeDelta")
+	if f == nil {
+		return
+	}
+	k := &astKit{c: c, ok: true}
+	tk := newTypeKit(c, rC10Merge)
+	if !tk.ok {
+		return
+	}
+	for _, nTarget := range []int{0, 1, 2} {
+		bad := ""
+		for _, withExisting := range []bool{false, true} {
+			in := ordabs.New(c.Prog)
+			in.InstallErrorStubs()
+			in.Stubs["ast.Atom.String"] = func(in *ordabs.Interp, _ ordabs.Value, _ []ordabs.Value) ([]ordabs.Value, error) {
+				return []ordabs.Value{"<atom>"}, nil
+			}
+			fact := k.atom("p", 3)
+			fargs := []ordabs.Value{tk.num(1), tk.num(2), tk.num(3)}
+			fact.Fields["Args"] = &ordabs.Slice{Elems: &fargs}
+			in.Stubs["factstore.GetAllFacts"] = func(in *ordabs.Interp, _ ordabs.Value, args []ordabs.Value) ([]ordabs.Value, error) {
+				return in.CallValue(args[1], []ordabs.Value{fact})
+			}
+			var tgt []ordabs.Value
+			for i := 0; i < nTarget; i++ {
+				tgt = append(tgt, int64(1+i))
+			}
+			src := []ordabs.Value{int64(0)}
+			fd := &ordabs.Rec{T: "ast.FunDep", Fields: map[string]ordabs.Value{"Source": &ordabs.Slice{Elems: &src}, "Target": &ordabs.Slice{Elems: &tgt}}}
+			if nTarget == 0 {
+				fd.Fields["Target"] = (*ordabs.Slice)(nil)
+			}
+			in.Stubs["engine.engine.hasMergePredicate"] = func(in *ordabs.Interp, _ ordabs.Value, _ []ordabs.Value) ([]ordabs.Value, error) {
+				return []ordabs.Value{fd, predSym("merge_p", 3), true}, nil
+			}
+			added := 0
+			in.Stubs["factstore.FactStore.Add"] = func(in *ordabs.Interp, _ ordabs.Value, _ []ordabs.Value) ([]ordabs.Value, error) {
+				added++
+				return []ordabs.Value{true}, nil
+			}
+			in.Stubs["factstore.FactStore.GetFacts"] = func(in *ordabs.Interp, _ ordabs.Value, args []ordabs.Value) ([]ordabs.Value, error) {
+				if withExisting {
+					return in.CallValue(args[1], []ordabs.Value{fact}) // the very fact: nothing to merge
+				}
+				return []ordabs.Value{nil}, nil
+			}
+			in.Stubs["factstore.ReadOnlyFactStore.GetFacts"] = in.Stubs["factstore.FactStore.GetFacts"]
+			eng := k.zero("engine", "engine")
+			eng.Fields["store"] = &ordabs.Obj{Name: "store", Opaque: true}
+			eng.Fields["deltaStore"] = &ordabs.Obj{Name: "delta", Opaque: true}
+			if !k.ok {
+				c.Unres(rC10Merge, f.Name, f.Decl.Pos(), "anchor-unresolved: engine.engine")
+				return
+			}
+			in.Fuel = 200000
+			out, err := in.Call(f, &ordabs.Obj{Name: "engine", Fields: eng.Fields, T: "engine.engine"}, nil)
+			if !runORD(c, rC10Merge, fmt.Sprintf("%s:%d-target-columns", f.Name, nTarget), f, err) {
+				bad = "-"
+				break
+			}
+			_, isErr := out[0].(ordabs.ErrVal)
+			switch {
+			case nTarget != 1 && !isErr:
+				bad = fmt.Sprintf("a functional dependency with %d target columns is merged without an error", nTarget)
+			case nTarget == 1 && isErr:
+				bad = "a functional dependency with one target column makes mergeDelta fail"
+			case nTarget == 1 && !withExisting && added != 1:
+				bad = fmt.Sprintf("one target column, no stored fact for the key: the derived fact is added %d times, want once", added)
+			}
+			if bad != "" {
+				break
+			}
+		}
+		if bad != "-" {
+			c.Check(bad == "", rC10Merge, fmt.Sprintf("%s:%d-target-columns", f.Name, nTarget), f.Decl.Pos(), "no index past the target list; error unless exactly one column", bad)
+		}
+	}
 }
